@@ -211,7 +211,8 @@ func Open(fileName string, opts *Options) (*AppendableFile, error) {
 		}
 
 		cf, ok := m.GetInt(metaCompressionFormat)
-		if !ok {
+		if !ok || cf < appendable.NoCompression || cf > appendable.ZLibCompression {
+			// an unknown format has neither a writer nor a reader
 			return nil, ErrCorruptedMetadata
 		}
 		compressionFormat = cf
